@@ -1144,7 +1144,17 @@ RCP<const Set> FiniteSet::set_complement(const RCP<const Set> &o) const
         set_basic rest;
         bool left_open = other.get_left_open(),
              right_open = other.get_right_open();
-        for (auto it = container_.begin(); it != container_.end(); it++) {
+        // container_ is ordered by hash; the walk below needs the numbers in
+        // increasing order (symbolic elements first, they are only collected)
+        vec_basic elems(container_.begin(), container_.end());
+        std::stable_sort(
+            elems.begin(), elems.end(),
+            [](const RCP<const Basic> &a, const RCP<const Basic> &b) {
+                if (is_a_Number(*a) and is_a_Number(*b))
+                    return eq(*Lt(a, b), *boolTrue);
+                return not is_a_Number(*a) and is_a_Number(*b);
+            });
+        for (auto it = elems.begin(); it != elems.end(); it++) {
             if (eq(*max({*it, other.get_start()}), *other.get_start())) {
                 if (eq(**it, *other.get_start()))
                     left_open = true;
